@@ -26,7 +26,22 @@ var handCorpus = []string{
 	`<%= truncate("abcdefghij", {size: 5, trail: ".."}) %>|<%= len([1, 2, 3]) %>|<%= toJSON({a: 1, b: [1, 2]}) %>`,
 	`<% contentFor("c") { %>[<%= p(1, "in") %>]<% } %>a<%= contentOf("c") %>b<%= contentOf("c") %>`,
 	`<%= range(1, 3) %>|<%= for (i) in between(0, 4) { %><%= i %><% } %>`,
+	// collections created by literals and then written to: nothing may survive the execution
+	`<% let h = {} %><%= if (h["k"]) { %>stale<% } else { %>fresh<% } %><% h["k"] = "v" %>[<%= h["k"] %>]`,
+	`<% let h = {a: 1} %><%= h["b"] %>|<% h["b"] = 2 %><%= h["b"] %>`,
+	`<% let a = [1, 2] %><%= a[0] %><% a[0] = 9 %><%= a[0] %>|<% let e = [] %><%= len(e) %>`,
+	`<% let o = {} %><% let i = {} %><% o["i"] = i %><% i["x"] = "deep" %><%= o["i"]["x"] %>`,
+	`<%= for (v) in [1, 2] { %><% let h = {} %><%= len(h) %><% h["n"] = v %><%= h["n"] %>,<% } %>`,
+	// every operator, incl. the regular-expression match with literal and computed patterns
+	`<%= "abc" ~= "^ab" %>|<%= "abc" ~= "b" + "c" %>|<%= "x1" ~= "[0-9]" %>|<%= if ("hello" ~= "l+") { %>m<% } %>`,
+	`<%= 7 - 2 * 3 %>|<%= (1 + 2) * 3 %>|<%= 7 / 2 %>|<%= 1.5 + 2.5 %>|<%= "a" + 1 %>|<%= 2 >= 2 %>|<%= 1 != 2 %>|<%= !true || false %>|<%= nil == nil %>`,
+	`<% let f = fn(p) { return p ~= "^t" } %><%= f("tea") %><%= f("sea") %>`,
+	// per-execution data (gid is different in every execution of the concurrency scenarios)
+	`<%= if (gid) { %><%= gid ~= gid %>|<%= "zzz" ~= gid %>|<%= gid %>|<%= {k: gid}["k"] %>|<%= [gid][0] %><% } else { %>no gid<% } %>`,
 	`<%= 1 / 0 %>`,
+	`<%= 1 +`,
+	`<% if (true) { %>open`,
+	`<h1>T</h1><%= "tail" %><% let = %>`,
 	`<%= nosuchfunc(1) %>`,
 	`<%= [1, 2][5] %>`,
 	`line1
